@@ -12,6 +12,11 @@ CHECKS = {
   "design_ref": "DESIGN.md section 3 C02",
   "note": TRUST + " Objects are compared through their printed form. Two open findings (read-from-string positions with multi-byte text, cl:read on a non-seekable stream) are exercised as probes only.",
   "technique": "TLA+ structure machine + trace acceptor (TLC) over traces recorded from the implementation"},
+ "C05": {
+  "text": "Trace validation with verified certificates: Numeric.tla gives every operator of the statement by its defining relation on exact values (integers as limb sequences because TLC integers are 32-bit, rationals as pairs, float operands of comparisons as mantissa*2^exponent); TLC first checks the specification's own operators against its integer arithmetic and against each other (NumericLaws); the harness applies each operator to operands held in variables (all pairs of the boundary grid, ratios, adjacent doubles, seeded 200-bit operands), re-reads the variables and records result, representation type and certificates (quotient, cofactors, Bezout coefficients); the TLA+ acceptor NumericTrace verifies under TLC the relation, lowest terms, canonical type and that no operand changed.",
+  "design_ref": "DESIGN.md section 3 C05",
+  "note": TRUST + " Seven open findings of the numeric tower are matched by the exact shape of the rejected event (reason + representation + operand class), never by the operator alone.",
+  "technique": "TLA+ relational specification + TLC self-check, TLA+ trace acceptor over recorded operator events"},
  "C06": {
   "text": "Trace validation: the harness executes histories of list operations over three variables (every ordered pair of the 31 operations on lists built in five ways, plus seeded-random histories) against slip and records, after every operation, the returned value and the contents of every variable; the TLA+ acceptor ListHeapTrace (permissive reference: value the language defines + may-share identities by the language rules) replays each recorded event under TLC and rejects a wrong result, a change caused by a non-destructive function or place operation, and a change of a list that cannot share structure with the one destroyed.",
   "design_ref": "DESIGN.md section 3 C06",
